@@ -365,11 +365,7 @@ pub fn gen_btor2(rng: &mut StdRng) -> Vec<u8> {
             11 => format!("{} {} {} {} {}", id, ["uext", "sext"][rng.gen_range(0..2)], a, b, rng.gen_range(0..9)),
             12 => format!("{} {} {} {} {}", id, ["init", "next"][rng.gen_range(0..2)], a, b, a),
             13 => format!("{} {} {}", id, ["bad", "constraint", "fair", "output"][rng.gen_range(0..4)], a),
-            14 => {
-                // a condition count that is right - or announces more conditions than any line can hold
-                let cnt = if rng.gen_range(0..4) == 0 { ["3", "65536", "4294967296", "1152921504606846976", "9223372036854775807", "18446744073709551615"][rng.gen_range(0..6)] } else { "2" };
-                format!("{} justice {} {} {}", id, cnt, a, b)
-            }
+            14 => format!("{} justice {}{}", id, 2, format!(" {} {}", a, b)),
             _ => format!("{} {} {} {} {} {}", id, ["ite", "write"][rng.gen_range(0..2)], a, a, b, a),
         };
         out.push_str(&line);
@@ -403,7 +399,7 @@ pub fn mutate(doc: &[u8], rng: &mut StdRng) -> Vec<u8> {
     if d.is_empty() {
         return vec![rng.gen()];
     }
-    match rng.gen_range(0..18) {
+    match rng.gen_range(0..19) {
         14 | 15 => {
             // a byte that differs from a byte of the document in a few bits (case bit, high bit, 0x40, 0x10, neighbours):
             // what table / bit-trick classifiers confuse with it - in its place, or right behind it
@@ -422,6 +418,20 @@ pub fn mutate(doc: &[u8], rng: &mut StdRng) -> Vec<u8> {
                 _ => b ^ 0x08,
             };
             if rng.gen_bool(0.5) { d[i] = alias; } else { d.insert(i + 1, alias); }
+        }
+        18 => {
+            // a count that announces more than any line can hold (BTOR2 justice conditions; any other count otherwise)
+            let key = b" justice ";
+            let at = d.windows(key.len()).position(|w| w == key).map(|p| p + key.len());
+            let starts: Vec<usize> = (0..d.len()).filter(|&i| d[i].is_ascii_digit() && (i == 0 || !d[i - 1].is_ascii_digit())).collect();
+            if let Some(s0) = at.or_else(|| starts.get(rng.gen_range(0..starts.len().max(1))).copied()) {
+                let mut e = s0;
+                while e < d.len() && d[e].is_ascii_digit() {
+                    e += 1;
+                }
+                let rep = ["3", "65536", "4294967296", "1152921504606846976", "9223372036854775807", "18446744073709551615"][rng.gen_range(0..6)].as_bytes();
+                d.splice(s0..e, rep.iter().copied());
+            }
         }
         17 => {
             // a stray sign or sign-like token between two tokens, or in place of a number
